@@ -30,6 +30,8 @@ EXPLANATION = (
     " and item delimiter codes with underscores are refused."
     " Added in rounds 8 and 9: (O11.5) the consistency matrix is exact: a refusal is accepted only where the csv"
     " dialect cannot represent the configuration."
+    " Added in round 10: Item delimiters given literally include characters Unicode files under the digits"
+    " (superscript two, Arabic-Indic three); Header / Sheet are also probed with Infinity, NaN and 1e999."
 )
 ASSUMPTIONS = ["codecs.lookup decides which encodings the runtime knows", "documented sets are those of docs/writing-an-icd.rst"]
 
